@@ -21,7 +21,7 @@ one() {
   else
     echo "$name: PATCH DOES NOT APPLY"
   fi
-  git -C /repo worktree remove --force $W 2>/dev/null || rm -rf $W
+  git -C /repo worktree remove --force $W 2>/dev/null || rm -rf $W; rm -rf /tmp/cijverif.scratch_out/$(basename $W)
 }
 n=0
 for d in "$@"; do
